@@ -35,7 +35,7 @@ func isMutatorCall(ins ssa.Instruction) (string, bool) {
 }
 
 func checkC02(p *core.Prog, r *core.Report) {
-	r.Explanation = "Decides structural necessary conditions of owner-only release and exact depth: (R1) in UnLock the hold that is tombstoned, decremented and removed is on every path the non-nil result of GetLockedLock(request) or, only under the unlock-first flag, the manager's oldest holder; (R2) every refusal reply of Lock/UnLock (UNLOCK_ERROR, UNOWN_ERROR, LOCK_ACK_WAITING, STATE_ERROR, TIMEOUT, and LOCKED_ERROR without the update flag) is reached without any engine mutation on its path (stores to hold/queue/value state, mutator calls) - the cancel-wait hand-over excepted; (R3) UnLock's success paths lower the key's depth exactly once, by 1 only under Rcount>0 with depth>1 (no removal unless the depth reaches 0) or when the depth is <=1, otherwise by the hold's whole depth, with exactly one RemoveLock; (R4) every path to the re-entrant depth increment in Lock carries the guards owner-found, not ack-pending, depth<0xff, depth<=Rcount, not priority-flagged, Expried!=0; (R5) cancelWaitLock answers the canceller LOCKED_ERROR and the cancelled waiter UNLOCK_ERROR, and the not-found path UNLOCK_ERROR. (R6) LockManager.RemoveLock keeps the LockId index of the holder list in step: a hold promoted to oldest holder, and a released non-oldest hold, are deleted from the index on the same path (the index lookup has no liveness test). (R7) cancelWaitLock selects a queue entry only on the not-answered side of a test of that entry's timeouted flag (an answered entry with the same LockId must not shadow the live request behind it). (R8) the holder lookup by LockId returns from the inline slice only a live entry (depth > 0) with the requested id, from the overflow index only its lookup by that id, and answers \"not a holder\" only after examining both. NOT decided: that the two parts of the holder list together contain exactly the holders (maintenance of the containers), arithmetic beyond the guards."
+	r.Explanation = "Decides structural necessary conditions of owner-only release and exact depth: (R1) in UnLock the hold that is tombstoned, decremented and removed is on every path the non-nil result of GetLockedLock(request) or, only under the unlock-first flag, the manager's oldest holder; (R2) every refusal reply of Lock/UnLock (UNLOCK_ERROR, UNOWN_ERROR, LOCK_ACK_WAITING, STATE_ERROR, TIMEOUT, and LOCKED_ERROR without the update flag) is reached without any engine mutation on its path (stores to hold/queue/value state, mutator calls) - the cancel-wait hand-over excepted; (R3) UnLock's success paths lower the key's depth exactly once, by 1 only under Rcount>0 with depth>1 (no removal unless the depth reaches 0) or when the depth is <=1, otherwise by the hold's whole depth, with exactly one RemoveLock; (R4) every path to the re-entrant depth increment in Lock carries the guards owner-found, not ack-pending, depth<0xff, depth<=Rcount, not priority-flagged, Expried!=0; (R5) cancelWaitLock answers the canceller LOCKED_ERROR and the cancelled waiter UNLOCK_ERROR, and the not-found path UNLOCK_ERROR. (R6) LockManager.RemoveLock keeps the LockId index of the holder list in step: a hold promoted to oldest holder, and a released non-oldest hold, are deleted from the index on the same path (the index lookup has no liveness test). (R7) cancelWaitLock selects a queue entry only on the not-answered side of a test of that entry's timeouted flag (an answered entry with the same LockId must not shadow the live request behind it). (R8) the holder lookup by LockId returns from the inline slice only a live entry (depth > 0) with the requested id, from the overflow index only its lookup by that id, and answers \"not a holder\" only after examining both. (R9) every grant that adds a holder consults the holder index for the request's LockId first, or has established that the key has no holders (wakeUpWaitLock does not: two known findings - two queued requests with one LockId become two holds). NOT decided: that the two parts of the holder list together contain exactly the holders (maintenance of the containers), arithmetic beyond the guards."
 	r.Assumptions = []string{"Go type checker and go/ssa are correct for /repo", "the holder list (inline slice + overflow index) contains exactly the current holders (container maintenance, beyond R6/R8)"}
 	c02R1(p, r)
 	c02R2(p, r)
@@ -45,6 +45,7 @@ func checkC02(p *core.Prog, r *core.Report) {
 	c02R6(p, r)
 	c02R7(p, r)
 	c02R8(p, r)
+	c02R9(p, r)
 }
 
 func c02R1(p *core.Prog, r *core.Report) {
@@ -642,5 +643,62 @@ func c02R8(p *core.Prog, r *core.Report) {
 	ex.Run(fn, nil)
 	if ex.Imprecise != "" {
 		r.Fail("C02/R8: %s", ex.Imprecise)
+	}
+}
+
+// c02R9: a LockId that already holds the key gains depth through the
+// re-entrant path (bounded by Rcount) - never a second, independent hold:
+// unlock finds one hold per LockId, and the holder index has one entry per
+// LockId. So every grant that adds a holder (AddLock) to a key that may
+// already have holders consults the holder index for the request's LockId
+// first (GetLockedLock), or has established that the key has no holders.
+func c02R9(p *core.Prog, r *core.Report) {
+	const rule = "C02/R9"
+	r.Rule(rule, "every AddLock in Lock / wakeUpWaitLock is preceded on its path by a holder lookup for the request's LockId (GetLockedLock) or by the fact that the key has no holders", 3)
+	for _, name := range []string{"server.(*LockDB).Lock", "server.(*LockDB).wakeUpWaitLock"} {
+		fn := mustFunc(p, r, name)
+		if fn == nil {
+			continue
+		}
+		seen := map[string]bool{}
+		ex := core.NewExplorer(p, core.Hooks{
+			Track: func(x *core.X, a core.Atom) bool {
+				s := core.Plain(a.String())
+				return strings.HasSuffix(s, ".locked <= 0") || strings.HasSuffix(s, ".locked == 0")
+			},
+			Instr: func(x *core.X) {
+				if !x.Top() {
+					return
+				}
+				if calleeIs(x.Ins, "LockManager", "GetLockedLock") {
+					x.Set("looked", "1")
+					return
+				}
+				if !calleeIs(x.Ins, "LockManager", "AddLock") {
+					return
+				}
+				key := siteKey(p, x.Ins)
+				ok := x.Get("looked") == "1"
+				for h := range x.St.Hist {
+					hp := core.Plain(h)
+					if strings.Contains(hp, "Manager") && (strings.HasSuffix(hp, ".locked <= 0") || strings.HasSuffix(hp, ".locked == 0")) {
+						ok = true
+					}
+				}
+				if ok {
+					if !seen[key] {
+						r.Hold(rule, key, x.Pos(), "holder lookup (or no holders) before the grant")
+					}
+				} else if !seen[key+"!"] {
+					seen[key+"!"] = true
+					r.Violate(rule, key, x.Pos(), "a holder is added without looking for an existing hold of the request's LockId: two queued requests bearing the same LockId are both granted, the LockId then owns two independent holds - an unlock releases only one of them, a second unlock of the same LockId succeeds again, and the one-entry-per-LockId holder index is corrupted", x.St.Trace)
+				}
+				seen[key] = true
+			},
+		})
+		ex.Run(fn, nil)
+		if ex.Imprecise != "" {
+			r.Fail("C02/R9 %s: %s", name, ex.Imprecise)
+		}
 	}
 }
